@@ -22,7 +22,9 @@ RULE = (
     "all sequences of two operations from a 22-letter alphabet (assignments of 3 values, del, read on "
     "the scalar and the many-to-one; add/remove/bulk-replace/del/read on the collection; flush; expire) "
     "on a list collection for a new, a fully loaded and a partially loaded object, followed by a flush; "
-    "the same for the 12 collection-related letters on set and keyed-dict collections; plus random "
+    "the same for the 12 collection-related letters on set and keyed-dict collections; all triples over "
+    "{expire, set, del, read, flush} per attribute (about 4400 sequences; quick: a seeded 1200 of them, "
+    "thorough: all); 19 fixed sequences that reach every rarely taken branch of the model; plus random "
     "sequences of 3..8 operations with random initial rows (None values, empty collections, key "
     "collisions in the dict, duplicates in the list). non-trivial = some attribute is mutated at least "
     "twice and the sequence contains a delete or an assignment of the initial value (set-back)"
@@ -161,13 +163,40 @@ def _rand_case(rng):
     return {"in": [kind, init, ops], "kind": "random"}
 
 
-def gen_cases(rng, tier):
-    cases = []
+# sequences that reach the rarely taken branches of the model; always part of the run
+_CORE = [
+    # KeyError("Deferred loader ... failed to populate") when reading a deleted, expired column
+    (0, [1, 1, 1, [1, 2]], [[EXPIRE, 0], [DELX, 0], [GETX, 0], [GETX, 0]]),
+    (0, [1, 1, 1, [1, 2]], [[EXPIRE, 0], [SETX, 2], [DELX, 0], [GETX, 0], [SETX, 1], [FLUSH, 0]]),
+    # many-to-one: old value from the identity map / PASSIVE_NO_RESULT / NO_VALUE
+    (0, [2, 1, 1, []], [[SETB, 2], [SETB, 1], [FLUSH, 0]]),
+    (0, [2, 1, 2, []], [[EXPIRE, 0], [SETB, 3], [DELB, 0], [GETB, 0], [FLUSH, 0]]),
+    (0, [0, 0, 0, []], [[FLUSH, 0], [SETB, 2], [DELB, 0], [GETB, 0], [SETB, 0], [FLUSH, 0]]),
+    (0, [0, 0, 0, []], [[DELB, 0], [SETB, 1], [DELB, 0], [DELB, 0], [FLUSH, 0], [GETB, 0]]),
+    (0, [1, 1, 0, []], [[SETB, 1], [SETB, 0], [DELB, 0], [FLUSH, 0]]),
+    # flush: UPDATE of an expired object reloads the unmodified columns
+    (0, [1, 1, 1, [1]], [[EXPIRE, 0], [SETX, 2], [FLUSH, 0], [GETB, 0], [SETX, 2], [FLUSH, 0]]),
+    (0, [1, 1, 1, [1]], [[EXPIRE, 0], [SETB, 2], [FLUSH, 0], [GETX, 0], [EXPIRE, 0], [SETB, 2], [FLUSH, 0]]),
+    (0, [1, 1, 1, [1]], [[EXPIRE, 0], [CGET, 0], [DELX, 0], [SETX, 1], [FLUSH, 0]]),
+    # collections: the special empty collection, duplicates, failed removals, key collisions
+    (0, [0, 0, 0, []], [[CGET, 0], [CREM, 1], [CADD, 1], [CADD, 1], [CREM, 1], [FLUSH, 0], [CREM, 1], [FLUSH, 0]]),
+    (1, [0, 0, 0, []], [[CREM, 1], [CADD, 2], [CADD, 2], [CADD, 1], [CREM, 2], [FLUSH, 0]]),
+    (2, [1, 1, 1, [1, 2]], [[CADD, 3], [CREM, 1], [CREM, 4], [CADD, 1], [CREM, 1], [FLUSH, 0]]),
+    (2, [2, 1, 1, [2, 3]], [[CREPL, [1, 4]], [CADD, 3], [CADD, 3], [FLUSH, 0], [CDEL, 0], [CGET, 0]]),
+    (0, [2, 1, 1, [1, 2]], [[CREPL, [2, 3, 3]], [CREM, 3], [EXPIRE, 0], [CREPL, [1, 2]], [FLUSH, 0]]),
+    (1, [1, 1, 1, [1, 2]], [[CDEL, 0], [CDEL, 0], [CADD, 3], [FLUSH, 0]]),
+    (0, [1, 1, 1, [1, 2]], [[CDEL, 0], [CREM, 3], [CGET, 0]]),
+    (0, [1, 1, 1, []], [[EXPIRE, 0], [EXPIRE, 0], [FLUSH, 0], [GETX, 0], [DELX, 0], [DELX, 0]]),
+    (0, [0, 0, 0, []], [[EXPIRE, 0], [GETX, 0], [GETB, 0], [SETX, 0], [DELX, 0], [DELX, 0], [FLUSH, 0], [EXPIRE, 0]]),
+]
+
+
+def _families():
     inits = [[0, 0, 0, []], [1, 1, 1, [1, 2]], [2, 1, 1, [1, 2]]]
     for init in inits:
         for a, b in itertools.product(_ALPHABET, repeat=2):
             ops = [a, b] + ([[FLUSH, 0]] if b[0] != FLUSH else [])
-            cases.append({"in": [0, init, ops], "kind": "pairs-list"})
+            yield {"in": [0, init, ops], "kind": "pairs-list"}
     for kind in (1, 2):
         for init in inits:
             for a, b in itertools.product(_COLL_LETTERS, repeat=2):
@@ -175,11 +204,23 @@ def gen_cases(rng, tier):
                        [b[0], _fix_repl(kind, b[1]) if b[0] == CREPL else b[1]]]
                 if b[0] != FLUSH:
                     ops.append([FLUSH, 0])
-                cases.append({"in": [kind, init, ops], "kind": "pairs-set" if kind == 1 else "pairs-dict"})
+                yield {"in": [kind, init, ops], "kind": "pairs-set" if kind == 1 else "pairs-dict"}
+    tx = [[EXPIRE, 0], [SETX, 2], [DELX, 0], [GETX, 0], [FLUSH, 0]]
+    tb = [[EXPIRE, 0], [SETB, 2], [DELB, 0], [GETB, 0], [FLUSH, 0]]
+    tc = [[EXPIRE, 0], [CADD, 3], [CREM, 1], [CDEL, 0], [CGET, 0], [FLUSH, 0], [CREPL, [2, 3]]]
+    for fam, letters in (("triples-x", tx), ("triples-b", tb), ("triples-c", tc)):
+        for init in inits:
+            for ops in itertools.product(letters, repeat=3):
+                yield {"in": [0, init, [list(o) for o in ops]], "kind": fam}
+
+
+def gen_cases(rng, tier):
+    cases = [{"in": [k, list(i), [list(o) for o in ops]], "kind": "core"} for k, i, ops in _CORE]
+    fam = list(_families())
     if tier != "thorough":
-        # keep the quick tier small: a seeded half of the exhaustive pairs
-        cases = rng.sample(cases, 1100)
-    nrand = 12000 if tier == "thorough" else 900
+        fam = rng.sample(fam, 1200)  # a seeded part of the 4400 exhaustive small sequences
+    cases += fam
+    nrand = 12000 if tier == "thorough" else 700
     for _ in range(nrand):
         cases.append(_rand_case(rng))
     seen, out = set(), []
@@ -498,6 +539,8 @@ def oracle(case, obs):
                     tag = "[failed-delete] " if (code == DELX and k == "x" and rc == 1) else ""
                     return "%s%s raised (rc=%d) but the history of %s changed from %s to %s" % (
                         tag, where, rc, k, prev[k], got)
+            if code == CREM and persistent and not st["c"]["dirty"]:
+                st["c"]["loaded"] = True  # a.cs was read before remove() raised
             continue
         # ---- the operation succeeded: its meaning for the user ----
         if code == SETX:
@@ -505,15 +548,13 @@ def oracle(case, obs):
         elif code == DELX:
             mutate("x", _MISSING)
         elif code == GETX:
-            if not st["x"]["dirty"] and persistent:
-                st["x"]["loaded"] = True
+            pass  # may or may not load (a flushed new object keeps x absent): "loaded" stays a lower bound
         elif code == SETB:
             mutate("b", arg)
         elif code == DELB:
             mutate("b", _MISSING)
         elif code == GETB:
-            if not st["b"]["dirty"] and persistent:
-                st["b"]["loaded"] = True
+            pass
         elif code in (CADD, CREM, CREPL):
             cur = view("c")
             cur = [] if cur is _MISSING else cur
@@ -551,7 +592,11 @@ def oracle(case, obs):
             for k in "xbc":
                 a = st[k]
                 present = a["loaded"] or (a["dirty"] and a["cur"] is not _MISSING)
-                st[k] = {"loaded": present, "dirty": False, "bases": None, "cur": None, "cdel": False}
+                keep = a["cur"] if (a["dirty"] and a["cur"] is not _MISSING) else None
+                if a["dirty"] and a["cur"] is _MISSING:
+                    present = False
+                # the object keeps its in-memory value (a list may hold duplicates the database cannot)
+                st[k] = {"loaded": present, "dirty": False, "bases": None, "cur": keep, "cdel": False}
         delx_persistent_missing = persistent and st["x"]["dirty"] and st["x"]["cur"] is _MISSING
         # ---- the histories ----
         for k in "xbc":
